@@ -286,7 +286,9 @@ def run(ctx):
         "with debug=1 through the NumPy target (as built, and after the algebraic rewriter), exec'd and run on 12 inputs from the special "
         "grid; plus every shipped numpy unit with debug=1 on 40 inputs. Oracles: emitted dtype assertions, returned dtype vs static type, "
         "per-node numpy-scalar dtype vs get_type(). Non-trivial = >=2 distinct symbol dtypes or a comparison/select/abs/real/imag/complex "
-        "node or a constant whose like is a composite expression; distinct by case."
+        "node or a constant whose like is a composite expression; distinct by case. Plus a deterministic probe of every (kind, left dtype, "
+        "right dtype, operand order) combination, every named constant and numeric literals per dtype, and a coverage-guided campaign "
+        "(atheris/libFuzzer over the same strategy and oracle), counted under kind-probe/* and fuzz/*."
     )
     ctx.assumptions = ["complex(float32, float64) and float128 arithmetic are outside what the NumPy target expresses and not generated", "runtime errors other than AssertionError are C05's subject and only counted"]
     ctx.merge(shipped(ctx))
